@@ -48,13 +48,13 @@ PAIRS = [("cah110_hf_sto3g_g09.wfn", "cah110_hf_sto3g_g09.wfx"), ("h2o_sto3g.fch
 def plan(tier, seed):
     cases = [{"kind": "constants"}]
     for fmt in GEOM_FORMATS + ["fcidump"]:
-        for i in range(2 if tier == "quick" else 20):
+        for i in range(2 if tier == "quick" else 150):
             cases.append({"kind": "printed", "fmt": fmt, "i": i, "seed": seed})
     for a, b in itertools.permutations(GEOM_FORMATS, 2):
-        for i in range(1 if tier == "quick" else 8):
+        for i in range(1 if tier == "quick" else 40):
             cases.append({"kind": "chain", "a": a, "b": b, "i": i, "seed": seed})
     for w, mod in sorted(spec_writers.all_writers().items()):
-        for i in range(1 if tier == "quick" else 6):
+        for i in range(1 if tier == "quick" else 40):
             cases.append({"kind": "spec", "writer": w, "i": i, "seed": seed})
         if w in ("gamess", "qchemlog", "charmm", "extxyz", "gromacs", "fchk", "json_qcschema", "chgcar", "locpot", "cube", "poscar"):
             # formats carrying masses, cells, grids, moments: every class (directed reproduction of the unit findings)
